@@ -7,7 +7,13 @@ case / un-hyphenated legacy / trailing newline / empty) and a list of operations
 one against the real helpers in insights.client.utilities, with the invariants of the statement
 checked after every step.  constants.registered_files / unregistered_files / machine_id_file point
 into the case's temp dir for the duration of the case; the subscription-manager identity is a stub
-(module absent / certificate unreadable / a generated consumer id)."""
+(module absent / certificate unreadable / a generated consumer id).
+
+Sub-check client_runs (round 4) drives the same invariants through the entry points a client run really
+uses (insights.client.client: get_machine_id, get_registration_status, handle_registration,
+handle_unregistration, upload - on a real InsightsConnection with a stub HTTP session, platform and legacy
+mode) mixed with the helper-level operations, symlinks planted in mid-history, and the history cut into
+client runs, each interpreted in a freshly forked process (case: {"dirs", "idfile", "legacy", "runs"})."""
 import os
 import shutil
 import tempfile
@@ -26,7 +32,18 @@ RULE = ("initial state: per configuration directory (current, legacy) absent/pre
         "absent / unreadable / a generated id), register, unregister (with and without date), delete "
         "registered marker, delete unregistered marker. Non-trivial: the history has >= 1 register and "
         ">= 1 unregister and a planted symlink, or a forced regeneration between two reads; distinct by "
-        "the whole case.")
+        "the whole case. client_runs: the same initial states; platform or legacy mode; 1-4 (thorough 1-6) "
+        "client runs of 1-6 (1-10) operations, every run interpreted in a freshly forked process (only the file "
+        "system is carried over), config + connection reused inside a run; operations: client.get_machine_id, "
+        "identifier read / forced regeneration through the helper, client.get_registration_status / "
+        "handle_unregistration (with and without force) / handle_registration (with and without --register, "
+        "answers 201/200/409/500 to the create call) / upload (202/200/401/415/500/unreachable) against a stub "
+        "service answering known / unknown / conflict / error / unreachable / non-JSON / 412 (legacy: registered / "
+        "unregistered-at / no entry / 404 / error / non-JSON / 412), helper-level register / unregister / "
+        "delete marker, a symlink planted at a marker in mid-history, a second config+connection in the same "
+        "run. Non-trivial (client_runs): an identifier compared against one established in an earlier run with "
+        ">= 1 client-level register/unregister in the history, or a planted symlink replaced by a client-level "
+        "operation.")
 ASSUMPTIONS = [
     "constants.registered_files / unregistered_files / machine_id_file are redirected to a temp dir and "
     "generate_machine_id is called with destination_file=<temp>/machine-id (its default is bound at import)",
@@ -37,13 +54,31 @@ ASSUMPTIONS = [
     "later reads return that new identifier",
     "marker 'exists' = the directory entry exists (os.path.lexists); rewrite detection = bytes, inode and "
     "mtime of the identifier file (mtime is set to a fixed old date before every read)",
+    "client_runs: a client run = a process forked from the worker right after the import of insights.client.* "
+    "(the worker never executes client code of this sub-check itself); in that process the constants above plus "
+    "lastupload_file / last_upload_results_file / insights_core_lib_dir and the import-time parameter defaults "
+    "of generate_machine_id / machine_id_exists point into the temp dir; the HTTP session of the real "
+    "InsightsConnection is a stub (no network), get_canonical_facts / determine_hostname return fixed values",
+    "client_runs: what an operation did is taken from its documented return value - registration status True / "
+    "False (legacy: status of a reachable check), handle_unregistration True (or --force on the platform), "
+    "handle_registration True / False after a reachable check, upload returning normally ('upload = registration "
+    "on platform'), a 412 answer with unregistered_at - 'register' demands regular .registered markers, "
+    "'unregister' regular .unregistered markers; anything else demands only coexistence / intact targets",
+    "client_runs: the identifier may change only by a forced regeneration, a 409 answer to the legacy create "
+    "call (the client then requests a new one) or when a status check / unregistration / legacy registration "
+    "removed or replaced the identifier file (observed on the file); identifiers the client sends to the stub "
+    "service (insights_id=, /v1/systems/<id>, machine_id in the create call) count as identifiers returned",
 ]
 EXCLUDED = [
     "identifier operations while the current configuration directory is absent (nothing can be persisted; "
     "the installer creates the directory - implicit precondition of every caller)",
     "invalid identifier file content (documented sys.exit) and identifier files that are symlinks/directories",
-    "a directory sitting at a marker path; symlinks planted in the middle of a history (the quantifier "
-    "plants them in the initial state)",
+    "a directory sitting at a marker path; in `history`/`first_steps` symlinks are planted in the initial "
+    "state only (client_runs also plants them in mid-history)",
+    "client_runs: legacy upload (runs file(1) / libmagic on the archive, writes no marker), an unreachable "
+    "service during a legacy status check (starts the interactive connection test), HTTP 413 (needs a real "
+    "tar archive), upload and legacy registration while the configuration directory is absent (os.chmod / "
+    "nothing can be persisted), BASIC authentication without credentials",
 ]
 
 KINDS = ["absent", "file", "link-file", "link-dangling", "link-dir"]
@@ -76,7 +111,7 @@ def _tmpbase():
 
 class _Sandbox(object):
     def __init__(self, case):
-        self.tmp = os.path.realpath(tempfile.mkdtemp(prefix="c17-", dir=_tmpbase()))
+        self.tmp = _LIVE["tmp"] = os.path.realpath(tempfile.mkdtemp(prefix="c17-", dir=_tmpbase()))
         self.dirs = [os.path.join(self.tmp, "etc", "insights-client"),
                      os.path.join(self.tmp, "etc", "redhat-access-insights")]
         self.targets = os.path.join(self.tmp, "targets")
@@ -91,34 +126,46 @@ class _Sandbox(object):
                 continue
             os.mkdir(self.dirs[i])
             for name, path in (("registered", self.reg[i]), ("unregistered", self.unreg[i])):
-                kind = d.get(name, "absent")
-                tag = "%d_%s" % (i, name)
-                if kind == "file":
-                    with open(path, "w") as f:
-                        f.write("2001-01-01T00:00:00")
-                elif kind == "link-file":
-                    t = os.path.join(self.targets, "t_" + tag)
-                    with open(t, "w") as f:
-                        f.write("ORIGINAL " + tag)
-                    os.symlink(t, path)
-                    self.links.append((path, kind, t, "ORIGINAL " + tag))
-                elif kind == "link-dangling":
-                    t = os.path.join(self.targets, "missing_" + tag)
-                    os.symlink(t, path)
-                    self.links.append((path, kind, t, None))
-                elif kind == "link-dir":
-                    t = os.path.join(self.targets, "dir_" + tag)
-                    os.mkdir(t)
-                    with open(os.path.join(t, "keep"), "w") as f:
-                        f.write("KEEP " + tag)
-                    os.symlink(t, path)
-                    self.links.append((path, kind, t, "KEEP " + tag))
-                elif kind != "absent":
-                    raise HarnessError("unknown marker kind %r" % (kind,))
+                self._put(path, d.get(name, "absent"), "%d_%s" % (i, name))
         idf = case.get("idfile")
         if idf and case["dirs"][0].get("present", True):
             with open(self.idfile, "w") as f:
                 f.write(render_id(idf["hex"], idf["form"]))
+
+    def _put(self, path, kind, tag):
+        """create the marker `path` as `kind`; symlink targets live under <tmp>/targets and are remembered"""
+        if kind == "file":
+            with open(path, "w") as f:
+                f.write("2001-01-01T00:00:00")
+        elif kind == "link-file":
+            t = os.path.join(self.targets, "t_" + tag)
+            with open(t, "w") as f:
+                f.write("ORIGINAL " + tag)
+            os.symlink(t, path)
+            self.links.append((path, kind, t, "ORIGINAL " + tag))
+        elif kind == "link-dangling":
+            t = os.path.join(self.targets, "missing_" + tag)
+            os.symlink(t, path)
+            self.links.append((path, kind, t, None))
+        elif kind == "link-dir":
+            t = os.path.join(self.targets, "dir_" + tag)
+            os.mkdir(t)
+            with open(os.path.join(t, "keep"), "w") as f:
+                f.write("KEEP " + tag)
+            os.symlink(t, path)
+            self.links.append((path, kind, t, "KEEP " + tag))
+        elif kind != "absent":
+            raise HarnessError("unknown marker kind %r" % (kind,))
+
+    def plant(self, i, name, kind, tag):
+        """somebody replaces whatever sits at a marker location by a symlink (in mid-history)"""
+        if not os.path.isdir(self.dirs[i]):
+            return False
+        path = (self.reg if name == "registered" else self.unreg)[i]
+        if os.path.lexists(path):
+            os.remove(path)
+        self._put(path, kind, tag)
+        return True
 
     def targets_intact(self):
         for path, kind, t, content in self.links:
@@ -157,22 +204,37 @@ class _Sandbox(object):
 
     def close(self):
         shutil.rmtree(self.tmp, ignore_errors=True)
+        _LIVE["tmp"] = None
 
 
 _TERM = []
+_LIVE = {"tmp": None, "pid": None}   # what the running case holds: its temp dir, the process of a client run
 
 
 def _tidy_on_terminate():
-    """Pool workers are stopped with SIGTERM when another worker reports a failure; turn that into
-    SystemExit once per worker process so that the `finally` of the running case removes its temp dir."""
-    if _TERM:
+    """Pool workers are stopped with SIGTERM when another worker reports a failure.  Once per worker process a
+    handler is installed that removes what the running case holds (temp dir, forked client run) and leaves at
+    once with os._exit - like the default action, but tidy.  (Raising SystemExit instead is not enough:
+    Hypothesis records a SystemExit as a failing example and carries on, the signal is used up, the worker
+    goes idle and Pool.terminate() waits for it forever.)"""
+    if _TERM and _TERM[0] == os.getpid():
         return
-    _TERM.append(1)
+    # per process: the parent runs the regression cases before it forks the workers, which inherit the list
+    _TERM[:] = [os.getpid()]
     import multiprocessing
     import signal
     if multiprocessing.current_process().name != "MainProcess":
         def _exit(signum, frame):
-            raise SystemExit(143)
+            pid, tmp = _LIVE["pid"], _LIVE["tmp"]
+            if pid:
+                try:
+                    os.kill(pid, signal.SIGKILL)
+                    os.waitpid(pid, 0)      # it must not write into the temp dir while that is removed
+                except OSError:
+                    pass
+            if tmp:
+                shutil.rmtree(tmp, ignore_errors=True)
+            os._exit(143)
         signal.signal(signal.SIGTERM, _exit)
 
 
@@ -355,6 +417,523 @@ def check(case):
 
 
 # ---------------------------------------------------------------------------------------------
+# client-level histories over several client runs (sub-check client_runs)
+#
+# The same invariants, but the operations are the entry points a client run really uses - the functions of
+# insights.client.client behind InsightsClient.get_machine_id / get_registration_status / register /
+# unregister / upload, working on a real InsightsConnection whose HTTP session is a stub that answers from
+# the operation's "srv"/"code" field - mixed with the helper-level operations of `history`, and the history
+# is cut into client *runs*: every run is interpreted in a freshly forked process (fork of the worker, which
+# itself never executes client code for this sub-check), so nothing but the file system is carried from one
+# run to the next, while config, connection and every module-level state are carried from call to call
+# inside a run - exactly what separate invocations of insights-client share and do not share.
+
+PLAT_SRV = ["known", "unknown", "conflict", "error", "down", "garbage", "gone412"]
+LEG_SRV = ["registered", "unregistered", "noentry", "notfound", "error", "garbage", "gone412"]
+LEG_REACHABLE = ("registered", "unregistered", "noentry", "notfound")
+UPLOAD_CODES = [202, 200, 401, 415, 500, "down"]
+UNREG_AT = "2019-05-05T12:00:00.000Z"
+CONTENT_TYPE = "application/vnd.redhat.advisor.collection+tgz"
+_ANSWERS = {
+    # platform: GET <inventory>/host_exists?insights_id=<id>
+    "known": (200, '{"id": "inv-0001"}'),
+    "unknown": (404, '{"detail": "host not found"}'),
+    "conflict": (409, '{"detail": "more than one host"}'),
+    "error": (500, '{"message": "internal error"}'),
+    "garbage": (200, "<html>a proxy says hello</html>"),
+    "gone412": (412, '{"unregistered_at": "%s", "message": "this host was unregistered"}' % UNREG_AT),
+    # legacy: GET <api>/v1/systems/<id>
+    "registered": (200, '{"unregistered_at": null, "account_number": "1234"}'),
+    "unregistered": (200, '{"unregistered_at": "%s", "account_number": "1234"}' % UNREG_AT),
+    "noentry": (200, "{}"),
+    "notfound": (404, "{}"),
+}
+ID_DROPPING = ("c_status", "c_unregister", "c_register")   # may unregister the host locally (drops the identifier)
+
+
+def _read_bytes(path):
+    if os.path.isfile(path) and not os.path.islink(path):
+        with open(path, "rb") as f:
+            return f.read()
+    return None
+
+
+def _in_fresh_process(fn, *args):
+    """fn(*args) in a forked child; the JSON-able result (or the Violation / error it ended with) comes
+    back through a pipe.  The child leaves with os._exit, is reaped here, and never outlives the call."""
+    import json
+    import signal
+    import traceback
+    import warnings
+    from vp.core import jdump, _origin_in_repo
+    rfd, wfd = os.pipe()
+    with warnings.catch_warnings():
+        warnings.simplefilter("ignore", DeprecationWarning)
+        pid = os.fork()
+    if pid == 0:
+        code = 0
+        try:
+            os.close(rfd)
+            signal.signal(signal.SIGTERM, signal.SIG_DFL)
+            try:
+                out = {"ok": fn(*args)}
+            except Violation as v:
+                out = {"violation": [v.msg, v.details]}
+            except HarnessError as e:
+                out = {"harness": "".join(traceback.format_exception(type(e), e, e.__traceback__))}
+            except BaseException as e:  # noqa
+                out = {"exc": type(e).__name__, "msg": str(e), "in_repo": _origin_in_repo(e),
+                       "traceback": "".join(traceback.format_exception(type(e), e, e.__traceback__))[-3000:]}
+            with os.fdopen(wfd, "wb") as f:
+                f.write(jdump(out).encode("utf-8"))
+        except BaseException:  # noqa
+            code = 3
+        finally:
+            os._exit(code)
+    os.close(wfd)
+    _LIVE["pid"] = pid
+    reaped = False
+    try:
+        with os.fdopen(rfd, "rb") as f:
+            data = f.read()
+        _, status = os.waitpid(pid, 0)
+        reaped = True
+    finally:
+        if not reaped:
+            try:
+                os.kill(pid, signal.SIGKILL)
+            except OSError:
+                pass
+            try:
+                os.waitpid(pid, 0)
+            except OSError:
+                pass
+        _LIVE["pid"] = None
+    if not data:
+        raise HarnessError("the process of a client run ended without an answer (wait status %r)" % (status,))
+    out = json.loads(data.decode("utf-8"))
+    if "ok" in out:
+        return out["ok"]
+    if "violation" in out:
+        raise Violation(out["violation"][0], **out["violation"][1])
+    if "harness" in out:
+        raise HarnessError(out["harness"])
+    if out.get("in_repo"):
+        raise Violation("unexpected %s raised inside the code under test: %s" % (out["exc"], out["msg"]),
+                        traceback=out["traceback"])
+    raise HarnessError(out["traceback"])
+
+
+def _run_ops(sb, case, r, state):
+    """One client run (case["runs"][r]), executed in a fresh process: redirect the client's constants into
+    the sandbox, build config + connection, interpret the operations, check the invariants after every
+    step.  `state` is the JSON model carried from run to run (the only thing besides the file system)."""
+    import json
+    import logging
+    import re
+    import sys
+    import types
+    import requests
+    from insights.client import utilities as U
+    from insights.client import client as CL
+    from insights.client import connection as CN
+    from insights.client import support as SP
+    from insights.client import cert_auth
+    from insights.client.config import InsightsConfig
+    C = U.constants
+    ops = case["runs"][r]
+    legacy = bool(case.get("legacy"))
+    dir0 = case["dirs"][0].get("present", True)
+
+    # -- this process is thrown away afterwards: nothing has to be restored
+    logging.disable(logging.CRITICAL)
+    sys.stdout = sys.stderr = open(os.devnull, "w")
+    orig_idfile = C.machine_id_file
+    C.registered_files = list(sb.reg)
+    C.unregistered_files = list(sb.unreg)
+    C.machine_id_file = sb.idfile
+    C.lastupload_file = os.path.join(sb.dirs[0], ".lastupload")
+    C.last_upload_results_file = os.path.join(sb.dirs[0], ".last-upload.results")
+    C.insights_core_lib_dir = os.path.join(sb.tmp, "lib")
+    real_write = U.write_to_disk
+
+    def guarded_write(filename, *a, **kw):
+        if not os.path.abspath(filename).startswith(sb.tmp + os.sep):
+            raise HarnessError("code under test was about to touch %r outside the sandbox" % (filename,))
+        return real_write(filename, *a, **kw)
+
+    def fake_hostname(display_name=None):
+        return display_name or "host.example.com"
+    for mod in (U, CL, CN, SP):
+        for name, obj in list(vars(mod).items()):
+            # parameter defaults bound to the identifier file at import time (generate_machine_id,
+            # machine_id_exists) follow the redirection
+            if isinstance(obj, types.FunctionType) and obj.__defaults__ and orig_idfile in obj.__defaults__:
+                obj.__defaults__ = tuple(sb.idfile if d == orig_idfile else d for d in obj.__defaults__)
+            if obj is real_write:
+                setattr(mod, name, guarded_write)
+        if hasattr(mod, "determine_hostname"):
+            mod.determine_hostname = fake_hostname           # no DNS look-ups
+    CN.get_canonical_facts = lambda: {"fqdn": "host.example.com"}   # no collection on the test machine
+    real_rhsm_cert = cert_auth.rhsmCertificate
+
+    def set_rhsm(mode):
+        if mode is None:
+            cert_auth.RHSM_CONFIG = None
+            cert_auth.rhsmCertificate = real_rhsm_cert
+            return
+
+        class FakeCert(object):
+            PATH = "/nonexistent/pki/consumer/"
+            CERT = "cert.pem"
+
+            @classmethod
+            def read(cls):
+                if mode == "error":
+                    raise IOError("no certificate")
+                return cls()
+
+            def getConsumerId(self):
+                return mode
+        cert_auth.RHSM_CONFIG = object()
+        cert_auth.rhsmCertificate = FakeCert
+    set_rhsm(None)
+
+    labels = set(state["labels"])
+    sb.links = [tuple(l) for l in state["links"]]
+    cur = {"step": 0, "op": None}
+    wire = {}
+
+    def fail(msg):
+        raise Violation(msg, run=r, step=cur["step"], op=cur["op"], markers=sb.snapshot(),
+                        earlier_runs=case["runs"][:r], this_run=ops[:cur["step"] + 1])
+
+    def establish(got):
+        if state["expect_id"] != got:
+            state["expect_run"] = r
+        state["expect_id"] = got
+        if got not in state["seen_ids"]:
+            state["seen_ids"].append(got)
+
+    def id_problem(got, how):
+        """an identifier handed out by the client (returned to the caller / sent to the service)"""
+        try:
+            canon = str(uuid.UUID(got)) if isinstance(got, str) else None
+        except ValueError:
+            canon = None
+        if canon is None or got != canon:
+            return "the identifier %s is not a canonical UUID: %r" % (how, got)
+        exp = state["expect_id"]
+        if exp is not None and got != exp:
+            return ("the identifier %s is %s, the identifier of this system is %s (established in run %d; no new "
+                    "one was requested and the host was not unregistered in between)"
+                    % (how, got, exp, state["expect_run"]))
+        if exp is not None and state["expect_run"] < r:
+            labels.add("id-stable-across-runs")
+            state["nt_cross_run"] = True
+        establish(got)
+        return None
+
+    class Resp(object):
+        def __init__(self, code, text, headers=None):
+            self.status_code = code
+            self.text = text
+            self.content = text.encode("utf-8")
+            self.reason = "stub"
+            self.headers = headers or {}
+            self.elapsed = 0
+
+        def json(self):
+            return json.loads(self.text)
+
+    def serve(method, url, kw):
+        op = cur["op"]
+        wire["n"] += 1
+        sent = []
+        m = re.search(r"[?&]insights_id=([^&]*)", url) or re.search(r"/v1/systems/([^/?]+)$", url)
+        if m:
+            sent.append(m.group(1))
+        create = method == "POST" and url.endswith("/v1/systems")
+        if create:
+            try:
+                sent.append(json.loads(kw.get("data"))["machine_id"])
+            except (TypeError, ValueError, KeyError):
+                pass
+        if sent and op["op"] in ID_DROPPING:
+            # such an operation may unregister the host locally (registration_check removes the identifier
+            # file) or roll a new identifier before it talks to the service again
+            now = _read_bytes(sb.idfile)
+            if now != wire["idbytes"]:
+                wire["idbytes"] = now
+                state["expect_id"] = None
+        if dir0:
+            for i in sent:
+                msg = id_problem(i, "sent to the service (%s %s)" % (method, url.split("://")[-1].split("?")[0][-40:]))
+                if msg and not wire["fail"]:
+                    wire["fail"] = msg     # raised after the call returned (callers swallow exceptions)
+        if method == "GET" and m:
+            kind = op.get("srv") or "error"
+            wire["get"] = kind
+            if kind == "down":
+                raise requests.ConnectionError("stub: service unreachable")
+            if kind == "gone412":
+                wire["served412"] = True
+            return Resp(*_ANSWERS[kind])
+        if method == "DELETE":
+            if op.get("srv2") == "down":
+                raise requests.ConnectionError("stub: service unreachable")
+            return Resp(204, "")
+        if create:
+            codes = op.get("post") or [201]
+            code = codes[min(wire["posts"], len(codes) - 1)]
+            wire["posts"] += 1
+            if code == 409:
+                # "If we get a 409, we know we need to generate a new machine-id": a new one is requested
+                state["expect_id"] = None
+                labels.add("c_register:409-new-id-requested")
+            return Resp(code, json.dumps({"machine_id": sent[-1] if sent else None, "account_number": "1234"}),
+                        {"x-rh-message": ""})
+        if method == "POST" and "code" in op:
+            if op["code"] == "down":
+                raise requests.ConnectionError("stub: service unreachable")
+            return Resp(op["code"], "" if op["code"] == 202 else "{}")
+        labels.add("unscripted-request")
+        return Resp(500, "{}")
+
+    class Session(object):
+        headers = {}
+
+        def request(self, url=None, method=None, timeout=None, **kw):
+            return serve(method, url, kw)
+
+    class Conn(CN.InsightsConnection):
+        def _init_session(self):
+            return Session()
+
+    def connect():
+        cfg = InsightsConfig(legacy_upload=legacy, auto_config=False, authmethod="CERT", retries=1,
+                             base_url="localhost.invalid/api", obfuscate=False,
+                             remove_file=os.path.join(sb.tmp, "remove.conf"),
+                             redaction_file=os.path.join(sb.tmp, "file-redaction.yaml"),
+                             content_redaction_file=os.path.join(sb.tmp, "file-content-redaction.yaml"),
+                             tags_file=os.path.join(sb.tmp, "tags.yaml"),
+                             logging_file=os.path.join(sb.tmp, "insights-client.log"))
+        if bool(cfg.legacy_upload) != legacy:
+            raise HarnessError("InsightsConfig did not keep legacy_upload=%r" % legacy)
+        return cfg, Conn(cfg)
+    cfg, conn = connect()
+
+    for step, op in enumerate(ops):
+        cur["step"], cur["op"] = step, op
+        wire.update(n=0, posts=0, get=None, served412=False, fail=None)
+        kind = op["op"]
+        cls = None            # "register" / "unregister": what the operation did to the host's registration
+        was_link = dict((p, os.path.islink(p)) for p in sb.reg + sb.unreg)
+        id_before = wire["idbytes"] = _read_bytes(sb.idfile)
+        if kind in ("c_id", "read", "regen"):
+            if not dir0:
+                labels.add("skipped:id-op-without-config-dir")
+                continue
+            set_rhsm(op.get("rhsm"))
+            before = None
+            if kind != "regen" and id_before is not None:
+                try:
+                    uuid.UUID(id_before.decode("ascii").strip())
+                    valid = True
+                except ValueError:
+                    valid = False
+                if valid:
+                    os.utime(sb.idfile, (OLD, OLD))
+                    s = os.lstat(sb.idfile)
+                    before = (id_before, s.st_ino, s.st_mtime_ns)
+            try:
+                if kind == "c_id":
+                    got = CL.get_machine_id()
+                else:
+                    got = U.generate_machine_id(new=(kind == "regen"))
+            except SystemExit as e:
+                fail("identifier %s exited the client (code %r)" % (kind, e.code))
+            finally:
+                set_rhsm(None)
+            if kind == "regen":
+                labels.add("regen" + (":rhsm-id" if op.get("rhsm") not in (None, "error") else ""))
+                known = got == state["expect_id"] or got in state["seen_ids"]
+                state["expect_id"] = None       # a new identifier was explicitly requested
+                msg = id_problem(got, "returned by a forced regeneration")
+                if msg:
+                    fail(msg)
+                if op.get("rhsm") in (None, "error") and known:
+                    fail("a forced regeneration returned the old identifier %s" % got)
+            else:
+                labels.add(kind)
+                msg = id_problem(got, "returned by %s" % ("client.get_machine_id()" if kind == "c_id" else "a read"))
+                if msg:
+                    fail(msg)
+                if before is not None:
+                    raw = _read_bytes(sb.idfile)
+                    s = os.lstat(sb.idfile) if raw is not None else None
+                    if s is None or (raw, s.st_ino, s.st_mtime_ns) != before:
+                        fail("a read rewrote the existing identifier file (content %r -> %r)" % (before[0], raw))
+                    labels.add("read:file-untouched")
+        elif kind == "c_status":
+            ret = CL.get_registration_status(cfg, conn)
+            if legacy:
+                if isinstance(ret, dict) and not ret.get("unreachable"):
+                    cls = {True: "register", False: "unregister"}.get(ret.get("status"))
+                out = "unreachable" if not isinstance(ret, dict) or ret.get("unreachable") else repr(ret.get("status"))
+            else:
+                cls = "register" if ret is True else ("unregister" if ret is False else None)
+                out = repr(ret)
+            if cls is None and wire["served412"]:
+                cls = "unregister"       # a 412 answer makes the client record the unregistration
+            labels.add("c_status:%s->%s" % (wire["get"] or "no-request", out))
+        elif kind == "c_unregister":
+            cfg.force = bool(op.get("force"))
+            try:
+                ret = CL.handle_unregistration(cfg, conn)
+            finally:
+                cfg.force = False
+            if ret is True or (not legacy and op.get("force")):
+                cls = "unregister"
+            labels.add("c_unregister%s->%r" % (":force" if op.get("force") else "", ret))
+        elif kind == "c_register":
+            if legacy and not dir0:
+                labels.add("skipped:legacy-register-without-config-dir")
+                continue
+            cfg.register = bool(op.get("reg"))
+            try:
+                ret = CL.handle_registration(cfg, conn)
+            finally:
+                cfg.register = False
+            if legacy:
+                if ret is True:
+                    cls = "register"
+                elif ret is False and (wire["get"] is None or wire["get"] in LEG_REACHABLE):
+                    cls = "unregister"
+            labels.add("c_register%s->%r" % (":--register" if op.get("reg") else "", ret))
+        elif kind == "c_upload":
+            if legacy:
+                labels.add("skipped:legacy-upload")
+                continue
+            if not dir0:
+                labels.add("skipped:upload-without-config-dir")
+                continue
+            try:
+                CL.upload(cfg, conn, os.path.join(sb.tmp, "archive.tar.gz"), CONTENT_TYPE)
+                cls = "register"         # "upload = registration on platform"
+            except RuntimeError as e:
+                if str(e) != "Upload failed.":
+                    raise
+            labels.add("c_upload:%s->%s" % (op.get("code"), "accepted" if cls else "failed"))
+        elif kind == "register":
+            U.write_registered_file()
+            cls = "register"
+        elif kind == "unregister":
+            if op.get("date") is None:
+                U.write_unregistered_file()
+            else:
+                U.write_unregistered_file(date=op["date"])
+            cls = "unregister"
+        elif kind == "del_reg":
+            U.delete_registered_file()
+        elif kind == "del_unreg":
+            U.delete_unregistered_file()
+        elif kind == "plant":
+            if sb.plant(op["dir"], op["marker"], op["kind"], "r%d_s%d" % (r, step)):
+                labels.add("planted-mid-history:" + op["kind"])
+                # the two markers may now sit side by side through no doing of the client: coexistence is
+                # demanded again from the next register / unregister operation on
+                state["regop_seen"] = False
+        elif kind == "reconnect":
+            cfg, conn = connect()
+        else:
+            raise HarnessError("unknown op %r" % (kind,))
+        if kind not in ("c_id", "read", "regen", "c_status", "c_unregister", "c_register", "c_upload"):
+            labels.add(kind)
+        if wire["fail"]:
+            fail(wire["fail"])
+        if cls:
+            state["regop_seen"] = True
+            state["n_" + cls] += 1
+            client_level = kind.startswith("c_")
+            for p in (sb.reg if cls == "register" else sb.unreg):
+                if os.path.islink(p):
+                    fail("after %s (%s) the marker %s is still a symlink"
+                         % (kind, "host registered" if cls == "register" else "host unregistered",
+                            os.path.relpath(p, os.path.join(sb.tmp, "etc"))))
+                if was_link[p]:
+                    if not os.path.isfile(p):
+                        fail("the symlink planted at %s was not replaced by a regular marker file"
+                             % os.path.relpath(p, os.path.join(sb.tmp, "etc")))
+                    labels.add("link-replaced" + (":client-level" if client_level else ""))
+                    if client_level:
+                        state["nt_client_link"] = True
+            if kind.startswith("c_"):
+                state["n_client_" + cls] += 1
+        if kind in ID_DROPPING:
+            id_after = _read_bytes(sb.idfile)
+            if id_after is None or id_after != id_before:
+                # the host was unregistered (identifier file removed) or the service asked for a new one
+                if state["expect_id"] is not None or id_before is not None:
+                    labels.add("id-dropped-by:" + kind)
+                state["expect_id"] = None
+        if state["regop_seen"]:
+            for i in range(2):
+                if os.path.lexists(sb.reg[i]) and os.path.lexists(sb.unreg[i]):
+                    fail("'registered' and 'unregistered' markers exist together in %s"
+                         % os.path.basename(sb.dirs[i]))
+        msg = sb.targets_intact()
+        if msg:
+            fail(msg)
+    state["labels"] = sorted(labels)
+    state["links"] = [list(l) for l in sb.links]
+    return state
+
+
+def check_runs(case):
+    _tidy_on_terminate()
+    # imported (never executed) here, so that every forked run starts from the state right after import
+    import requests  # noqa: F401
+    from insights.client import utilities, client, connection, support, cert_auth  # noqa: F401
+    from insights.client.config import InsightsConfig  # noqa: F401
+    sb = None
+    try:
+        sb = _Sandbox(case)
+        os.mkdir(os.path.join(sb.tmp, "lib"))
+        with open(os.path.join(sb.tmp, "archive.tar.gz"), "wb") as f:
+            f.write(b"\x1f\x8b not really an archive")
+        dir0 = case["dirs"][0].get("present", True)
+        idf = case.get("idfile") if dir0 else None
+        labels = set(["mode:legacy" if case.get("legacy") else "mode:platform", "runs:%d" % len(case["runs"])])
+        labels.add("id-init:" + (idf["form"] + ("" if idf["form"] == "empty" or is_v4(idf["hex"]) else ":non-v4")
+                                 if idf else "absent"))
+        for i, d in enumerate(case["dirs"]):
+            if not d.get("present", True):
+                labels.add("dir%d-absent" % i)
+        for _, kind, _, _ in sb.links:
+            labels.add("planted:" + kind)
+        state = {"expect_id": None, "expect_run": 0, "seen_ids": [], "regop_seen": False,
+                 "n_register": 0, "n_unregister": 0, "n_client_register": 0, "n_client_unregister": 0,
+                 "nt_cross_run": False, "nt_client_link": False,
+                 "labels": sorted(labels), "links": [list(l) for l in sb.links]}
+        if idf and idf["form"] != "empty" and is_v4(idf["hex"]):
+            state["expect_id"] = str(uuid.UUID(idf["hex"]))
+        for r in range(len(case["runs"])):
+            state = _in_fresh_process(_run_ops, sb, case, r, state)
+        labels = set(state["labels"])
+        if state["nt_cross_run"]:
+            labels.add("nt:id-compared-across-runs")
+        if state["nt_client_link"]:
+            labels.add("nt:symlink-replaced-by-client-level-op")
+        nt = bool((state["nt_cross_run"] and (state["n_client_register"] or state["n_client_unregister"]))
+                  or state["nt_client_link"])
+        return {"nontrivial": nt, "labels": sorted(labels)}
+    finally:
+        if sb is not None:
+            sb.close()
+
+
+# ---------------------------------------------------------------------------------------------
 # generator
 
 # (one_of de-duplicates equal branches, so weights are drawn explicitly)
@@ -419,9 +998,67 @@ def first_steps(tier):
     return out
 
 
+_SRV_PLAT = st.sampled_from(["known"] * 3 + ["unknown"] * 3 + ["conflict", "error", "down", "garbage", "gone412"])
+_SRV_LEG = st.sampled_from(["registered"] * 3 + ["unregistered"] * 2 + ["noentry"] * 2 +
+                           ["notfound", "error", "garbage", "gone412"])
+_RHSM_RARE = st.integers(0, 9).flatmap(lambda w: st.none() if w < 7 else _rhsm)
+
+
+@st.composite
+def _runs_case(draw, max_runs, max_ops):
+    dirs = []
+    for i in range(2):
+        present = draw(st.sampled_from([True] * 9 + [False] if i == 0 else [True, True, False]))
+        d = {"present": present}
+        if present:
+            d["registered"] = draw(_kind)
+            d["unregistered"] = draw(_kind)
+        dirs.append(d)
+    idfile = None
+    if dirs[0]["present"] and draw(st.integers(0, 4)) > 0:
+        idfile = {"hex": draw(_hex), "form": draw(st.sampled_from(FORMS[:-1] * 3 + ["empty"]))}
+    legacy = draw(st.sampled_from([False, False, False, True, True]))
+    srv = _SRV_LEG if legacy else _SRV_PLAT
+    builders = {
+        "c_id": st.builds(lambda r: {"op": "c_id", "rhsm": r}, _RHSM_RARE),
+        "read": st.builds(lambda r: {"op": "read", "rhsm": r}, _rhsm),
+        "regen": st.builds(lambda r: {"op": "regen", "rhsm": r}, _rhsm),
+        "c_status": st.builds(lambda s: {"op": "c_status", "srv": s}, srv),
+        "c_unregister": st.builds(lambda s, f, d: {"op": "c_unregister", "srv": s, "force": f, "srv2": d},
+                                  srv, st.booleans(), st.sampled_from(["ok", "ok", "down"])),
+        "c_register": st.builds(lambda s, g, p: {"op": "c_register", "srv": s, "reg": g, "post": p},
+                                srv, st.sampled_from([True, True, False]),
+                                st.sampled_from([[201], [201], [200], [409, 201], [409, 409], [500]])),
+        "c_upload": st.builds(lambda c: {"op": "c_upload", "code": c},
+                              st.sampled_from([202] * 4 + [200] * 2 + [401, 415, 500, "down"])),
+        "register": st.just({"op": "register"}),
+        "unregister": st.builds(lambda d: {"op": "unregister", "date": d}, st.sampled_from([None, None, "2020-01-01"])),
+        "del_reg": st.just({"op": "del_reg"}),
+        "del_unreg": st.just({"op": "del_unreg"}),
+        "plant": st.builds(lambda i, m, k: {"op": "plant", "dir": i, "marker": m, "kind": k},
+                           st.sampled_from([0, 0, 1]), st.sampled_from(["registered", "registered", "unregistered"]),
+                           st.sampled_from(KINDS[2:])),
+        "reconnect": st.just({"op": "reconnect"}),
+    }
+    names = ["c_status"] * 5 + ["c_unregister"] * 2 + ["register", "unregister", "del_reg", "del_unreg", "plant",
+                                                       "plant", "reconnect"]
+    names += ["c_register"] * (3 if legacy else 1) + ([] if legacy else ["c_upload"] * 4)
+    if dirs[0]["present"]:
+        names += ["c_id"] * 7 + ["read"] * 2 + ["regen"]
+    op = st.sampled_from(names).flatmap(lambda n: builders[n])
+    runs = draw(st.lists(st.lists(op, min_size=1, max_size=max_ops), min_size=1, max_size=max_runs))
+    return {"dirs": dirs, "idfile": idfile, "legacy": legacy, "runs": runs}
+
+
+def strat_runs(tier):
+    return _runs_case(4, 6) if tier == "quick" else _runs_case(6, 10)
+
+
 SUBS = [
-    Sub("history", check, strategy=strat, quick=2500, thorough=8000, workers_quick=4, workers_thorough=16,
-        budget_quick=45, budget_thorough=540),
+    Sub("history", check, strategy=strat, quick=2000, thorough=8000, workers_quick=4, workers_thorough=16,
+        budget_quick=28, budget_thorough=540),
+    Sub("client_runs", check_runs, strategy=strat_runs, quick=600, thorough=4000, workers_quick=4,
+        workers_thorough=16, budget_quick=30, budget_thorough=540),
     Sub("first_steps", check, enumerate=first_steps, workers_quick=2, workers_thorough=4, budget_quick=30,
         budget_thorough=120),
 ]
@@ -440,6 +1077,27 @@ REGRESSIONS = [
         "idfile": None,
         "ops": [{"op": "unregister", "date": None}, {"op": "register"}, {"op": "read", "rhsm": None},
                 {"op": "regen", "rhsm": None}, {"op": "read", "rhsm": None}, {"op": "unregister", "date": "2020-01-01"}]}),
+    Reg("runs-legacy-register-rolls-identifier", "client_runs", {
+        "dirs": [{"present": True, "registered": "absent", "unregistered": "link-dangling"},
+                 {"present": True, "registered": "link-dir", "unregistered": "absent"}],
+        "idfile": {"hex": _H, "form": "nohyphen"}, "legacy": True,
+        "runs": [[{"op": "c_id", "rhsm": None},
+                  {"op": "c_register", "srv": "unregistered", "reg": True, "post": [409, 201]},
+                  {"op": "c_id", "rhsm": None}],
+                 [{"op": "c_id", "rhsm": None}, {"op": "c_status", "srv": "registered"},
+                  {"op": "c_unregister", "srv": "registered", "force": False, "srv2": "down"},
+                  {"op": "c_unregister", "srv": "error", "force": True, "srv2": "ok"}],
+                 [{"op": "read", "rhsm": None}, {"op": "c_register", "srv": "noentry", "reg": False, "post": [201]}]]}),
+    Reg("runs-platform-mixed", "client_runs", {
+        "dirs": [{"present": True, "registered": "link-dangling", "unregistered": "file"}, {"present": False}],
+        "idfile": None, "legacy": False,
+        "runs": [[{"op": "c_status", "srv": "known"}, {"op": "c_id", "rhsm": "error"},
+                  {"op": "c_status", "srv": "gone412"}, {"op": "c_id", "rhsm": None}],
+                 [{"op": "c_id", "rhsm": None}, {"op": "plant", "dir": 0, "marker": "unregistered", "kind": "link-dir"},
+                  {"op": "c_upload", "code": 500}, {"op": "c_upload", "code": 200}, {"op": "reconnect"},
+                  {"op": "c_status", "srv": "conflict"}, {"op": "c_unregister", "srv": "known", "force": False, "srv2": "ok"}],
+                 [{"op": "c_unregister", "srv": "known", "force": True, "srv2": "ok"}, {"op": "regen", "rhsm": None},
+                  {"op": "c_register", "srv": "known", "reg": True, "post": [201]}, {"op": "c_id", "rhsm": None}]]}),
     Reg("absent-dirs", "history", {
         "dirs": [{"present": False}, {"present": False}], "idfile": None,
         "ops": [{"op": "register"}, {"op": "unregister", "date": None}, {"op": "del_reg"}, {"op": "del_unreg"}]}),
